@@ -21,6 +21,7 @@ import Receptor.Drive.Stream
 import Receptor.Drive.Mirror
 import Receptor.Drive.Link
 import Receptor.Drive.Ping
+import Receptor.Drive.Accept
 /-! Line-protocol driver: one JSON request per line `{"e":engine,"op":op,"a":args,"r":impl-observation}`,
 one JSON reply per line `{"m":model-result,"prop":true|false|null,"why":…}` or `{"bad-op":…}`. -/
 open Lean Receptor.Drive
@@ -52,6 +53,7 @@ def dispatch (e op : String) (a r : Json) : Except String Reply :=
   | "mirror" => Receptor.Drive.Mirror.handle op a r
   | "link" => Receptor.Drive.Link.handle op a r
   | "ping" => Receptor.Drive.Ping.handle op a r
+  | "accept" => Receptor.Drive.Accept.handle op a r
   | _ => throw s!"bad-op unknown engine {e}"
 
 def handleLine (line : String) : String :=
